@@ -37,7 +37,8 @@ SIG_DANGLING = "mixed-compute:dangling-leaf-key"
 SIG_OPT_RAW = "optimize:raw-unlowered-graph"
 SIG_RESHAPE = "reshape-int-slice-pushdown"
 SIG_SIZE_DRIFT = "dask.persist:block-size-drift"
-OWN_KNOWN = (SIG_OPT_REDUCTION, SIG_FROM_GRAPH, SIG_DANGLING, SIG_OPT_RAW, SIG_RESHAPE, SIG_SIZE_DRIFT)
+SIG_MIXED_FINALIZE = "dask.compute(x,non-array):finalize-missing-dependency"
+OWN_KNOWN = (SIG_OPT_REDUCTION, SIG_FROM_GRAPH, SIG_DANGLING, SIG_OPT_RAW, SIG_RESHAPE, SIG_SIZE_DRIFT, SIG_MIXED_FINALIZE)
 
 
 def classify_reshape(prog, msg):
@@ -201,6 +202,14 @@ def _hand_registry():
         d = da.from_array(a, chunks=((9, 3, 5),))
         return da.sliding_window_view(d, 4).mean(-1), np.lib.stride_tricks.sliding_window_view(a, 4).mean(-1)
 
+    @reg("mixed_finalize_reoptimized")
+    def _(p):
+        # the concatenation's chunks (1,2) differ from the source's (3,): unify rechunks the source during lowering, and a
+        # SECOND simplify pass pushes the two slices into the source (optimize() is not idempotent on this expression)
+        a = np.arange(3, dtype=np.int64)
+        d = da.from_array(a, chunks=3)
+        return da.concatenate([d[:1], d[1:]]) - d, np.concatenate([a[:1], a[1:]]) - a
+
     @reg("persist_of_persist")
     def _(p):
         a, d = src(12, 5)
@@ -332,6 +341,22 @@ def unlowered_own_layer_nodes(x):
     return out
 
 
+def rematerialize_renames_finalize(x):
+    """dask.compute(x, <non-expression collection>) optimizes `FinalizeComputeArray(x.expr)` and THEN asks the result for
+    `__dask_graph__()`, which materializes (simplify -> lower -> fuse) once more.  When that second pass still rewrites
+    something (optimize() is not idempotent on x: e.g. slices of a source left above a unify-rechunk that only lowering
+    introduced), the root is renamed and `_materialize` pins it with a RootAlias keyed by BLOCK ids
+    (('finalizecomputearray-A', 0, ...) -> ('finalizecomputearray-B', 0, ...)), while a FinalizeComputeArray's only key is its
+    bare name: the alias targets do not exist ('Missing dependency')."""
+    try:
+        from dask_array._materialize import _materialize
+
+        opt = x.expr.finalize_compute().optimize()
+        return type(_materialize(opt)).__name__ == "RootAlias"
+    except Exception:
+        return False
+
+
 def _colls(x, y, entry):
     return [c for c in ([x, y] if entry.endswith("(x,y)") else [x]) if c is not None]
 
@@ -387,6 +412,9 @@ def classify(case, x, y, entry, exc):
             return SIG_OPT_REDUCTION
         if entry in DASK_OPTIMIZE and any(unlowered_own_layer_nodes(c) for c in cs):
             return SIG_OPT_RAW
+        if (entry == "dask.compute(x,delayed)" and isinstance(exc, ValueError) and "Missing dependency ('finalizecomputearray-" in msg
+                and rematerialize_renames_finalize(x)):
+            return SIG_MIXED_FINALIZE
         if entry == "dask.compute(x,delayed)" and dangling_leaves(x):
             return SIG_DANGLING
         if entry in ("dask.persist(x)", "dask.persist(x,y)") and any(optimized_sizes_differ(c) for c in cs):
@@ -1107,6 +1135,14 @@ def run(ctx, replay=None):
         "shape checks of to_delayed / persisted / optimized blocks against the advertised chunks and a from_delayed re-assembly; "
         "every 6th case is a history on ONE collection object (entry points, in-place update by setitem / mask / ufunc out=, "
         "entry points again); "
+        "typed stream (props_ext/c05_types): block grids mixing plain ndarray and np.ma.MaskedArray blocks in every order "
+        "(map_blocks by block id / da.block / concatenate / stack / from_array; masks mod-k, on block edges, all; fill values; "
+        "nomask blocks) and sources of 15 other dtypes / array classes (bool, int8, uint16, float32, complex, datetime64, "
+        "timedelta64, str, bytes, object, records, masked records, np.matrix, 0-d, 0-d masked) x 16 entry points (the 11 plus "
+        "np.asarray, dask.compute of list / dict, to_delayed of persisted collections) with DATA, MASK and fill_value compared "
+        "against np.ma; ownership stream: holder (x | persisted | optimized) -> view (whole | chunk-aligned slice | .blocks | "
+        "unaligned index) -> result of one of 12 entry points OVERWRITTEN in place by the caller -> 6 entry points + a follow-on "
+        "op on holder, view and x must still return the oracle; "
         "a case is distinct by (entry point, outcome, result rank, scheduler, set of expression classes)"
     )
     ctx.assumptions = [
@@ -1114,12 +1150,22 @@ def run(ctx, replay=None):
         "three-way lookup); dask.base glue (unpack/repack, scheduler, finalize) is exercised only by the search",
         "values are compared with NumPy exactly (int64 data; float results with rtol 1e-12); seeded random arrays have no NumPy "
         "meaning and are compared across entry points (reference = x.compute())",
+        "blocks handed out by to_delayed are raw task outputs and may be views of stored data (the user's source array, the blocks "
+        "a persisted collection holds) on the unchanged tree: overwriting them is recorded in notes (to_delayed_block_overwrite.*), "
+        "not judged; np.asarray(x) goes through __array__ (plain ndarray by contract): unmasked data only; np.matrix: values only",
         "known findings are classified by predicate: dask.optimize on an expression containing a raw Reduction node "
         f"({SIG_OPT_REDUCTION}); dask.persist/dask.optimize on a reduction over sliding_window_view with 'from_graph cannot find "
-        f"output block' ({SIG_FROM_GRAPH}); everything else is strict",
+        f"output block' ({SIG_FROM_GRAPH}); dask.compute(x, <non-array collection>) raising 'Missing dependency (finalizecomputearray-' "
+        f"on an x whose optimized FinalizeComputeArray is renamed by a second materialization ({SIG_MIXED_FINALIZE}); "
+        "everything else is strict",
     ]
     if replay is not None:
         case = replay["case"] if "case" in replay else replay
+        if case.get("kind") in ("typed", "own"):  # harness/props_ext/c05_types.py
+            from harness.props_ext import c05_types
+
+            c05_types.replay(ctx, case)
+            return
         fn = check_inplace if case.get("kind") == "inplace" else check_case
         for f in fn(ctx, case) or []:
             ctx.fail(f["sig"], case, f["detail"])
@@ -1128,7 +1174,7 @@ def run(ctx, replay=None):
     correspondence(ctx)
 
     n = ctx.scale(150, 2000)
-    budget = ctx.scale(45, 500)
+    budget = ctx.scale(40, 480)
     # hand-shaped first
     for name in HAND_NAMES:
         for sched in ("sync", "threads"):
@@ -1196,6 +1242,11 @@ def run(ctx, replay=None):
                 pass
         if fails:
             report(ctx, case, fails)
+    # array TYPES (masked / mixed masked-plain block grids, other dtypes) at every entry point, and RESULT OWNERSHIP
+    # (the caller overwrites what an entry point handed back; every entry point must still return the old values)
+    from harness.props_ext import c05_types
+
+    c05_types.run(ctx, ctx.scale(14, 150))
     known_probe(ctx)
     if ctx.disagreements:
         targeted(ctx)
@@ -1208,6 +1259,7 @@ def known_probe(ctx):
                           ("take_single", ["x.compute", "dask.compute(x,delayed)"]),
                           ("mul_mismatched_chunks", ["x.compute", "dask.optimize(x)"]),
                           ("reshape_int_index", ["x.compute", "dask.optimize(x)"]),
+                          ("mixed_finalize_reoptimized", ["x.compute", "dask.compute(x,delayed)"]),
                           ("swv_mean_irregular", ["x.compute"])):
         case = {"kind": "hand", "name": name, "params": {}, "sched": "sync", "follow": None, "entries": entries, "blocks": name == "swv_mean_irregular"}
         for f in check_case(ctx, case, count=False) or []:
